@@ -45,6 +45,21 @@ func translatePath(path string) (string, fileType) {
 	}
 }
 
+// checkNotSpecial refuses things that are neither files nor directories: opening of a named pipe blocks
+// until somebody opens its other end (forever, holding a connection), devices are not for serving.
+func checkNotSpecial(fsys afero.Fs, path string) error {
+	info, err := fsys.Stat(path)
+	if err != nil {
+		return nil // open will tell (or create)
+	}
+
+	if !info.IsDir() && !info.Mode().IsRegular() {
+		return &fs.PathError{Op: "open", Path: path, Err: ErrSpecialFile}
+	}
+
+	return nil
+}
+
 func (fsys *FS) Open(path string) (afero.File, error) {
 	return fsys.OpenFile(path, os.O_RDONLY, 0)
 }
@@ -59,6 +74,10 @@ func (fsys *FS) OpenFile(path string, flags int, perm fs.FileMode) (afero.File, 
 		}
 
 		return NewVirtualISO(fsys.Fs, path, typ == virtualPS3ISOFile)
+	}
+
+	if err := checkNotSpecial(fsys.Fs, path); err != nil {
+		return nil, err
 	}
 
 	f, err := fsys.Fs.OpenFile(path, flags, perm)
